@@ -4,7 +4,8 @@ Model driver for the RIDDLE parser (property C16); twin of /verif/harness/riddle
 Input line : `parse <hex bytes of the program text>`
 Output line: the canonical s-expression of the compilation unit, or `error:<message>` (the
 text given to `parser::error` / `lexer::error`, without the `[line, col] ` prefix), or
-`ub:<what>` where the C++ has undefined behaviour (the probe does not compare these lines).
+`ub:<what>` where the C++ has undefined behaviour (the probe does not compare these lines;
+no such place is left in the model: `C16_parser_no_ub`).
 
 The C++ parser pulls tokens lazily, so the model parser is given the tokens that precede the
 first lexer error; when it asks for more (`PErr.lexer`) the lexer's message is printed.
